@@ -12,7 +12,7 @@ the differential run of `harness/h_getopts.c`).  Proofs here are glue on the nam
 Full statement (properties.jsonl) and where each clause is proved, for every well-formed option table (`WF`)
 and every sequence of sources:
 * (a) value = last source that set it, default otherwise; second setting by the same source is a usage error:
-  `sources_are_setting_sequences_*`, `spoof_is_cmdline_of_its_words`, `cfg_line_*`, `long_option_*_form`, `long_flag_form`, `short_option_*_form`, `concatenated_short_flags`, `successful_*_is_history`, `cmdline_success_is_history`, `cfgfile_success_is_history`, `environment_success_is_history`, `last_setter_wins`, `untouched_keeps_state`, `fresh_object_all_default`, `reuse_restores_defaults`,
+  `sources_are_setting_sequences_*`, `spoof_is_cmdline_of_its_words`, `cfg_line_*`, `cfgfile_is_its_settings`, `long_option_*_form`, `long_flag_form`, `short_option_*_form`, `concatenated_short_flags`, `successful_*_is_history`, `cmdline_success_is_history`, `cfgfile_success_is_history`, `environment_success_is_history`, `last_setter_wins`, `untouched_keeps_state`, `fresh_object_all_default`, `reuse_restores_defaults`,
   `same_source_twice_is_usage_error`, `set_after_toggle_by_same_source_is_usage_error`
 * (b) toggles: `set_option_spec`, `toggle_switches_others_off`, `optlist_element_denotes_named_option`, `optlist_reads_back_names`
 * (c) abbreviations: `abbrev_full_name_resolves`, `abbrev_resolves_iff_unique`, `abbrev_ambiguous_iff`, `abbrev_unknown_iff`
@@ -62,6 +62,13 @@ theorem cfg_line_missing_argument {opts : List Opt} {name : Str} {i : Nat} (hn :
 
 theorem cfg_line_unknown_option {opts : List Opt} {name : Str} (hn : Plain wsDelim name) (hdash : name.head? = some '-')
     (hi : optidxExactly opts name = none) : cfgItem opts (name ++ ['\n']) = some .usage := cfgItem_unknown hn hdash hi
+
+/-- a config file written as one correctly spelled setting per line (exact option name; an argument iff the option
+    takes one) is parsed into exactly those settings, in order — with `sources_are_setting_sequences_cfg` and
+    `cfgfile_success_is_history`: processing it is the history of those settings -/
+theorem cfgfile_is_its_settings (opts : List Opt) (es : List CfgEntry) (h : ∀ e ∈ es, e.Good opts) :
+    (fileLines (es.flatMap (fun e => e.line ++ ['\n']))).filterMap (cfgItem opts) = es.map (fun e => CfgItem.set e.i e.arg) :=
+  cfgfile_items opts es h
 
 /-- the documented command-line forms: `--name=value`, `--name value`, `--flag`, `-Wvalue`, `-W value`, and
     concatenated booleans `-abc` = `-a -b -c` (each is the `set_option` call one expects) -/
@@ -473,6 +480,9 @@ example : Conflict ((runSets demoG [⟨1, none, 1⟩]).getD default) 2 1 (listId
   ⟨1, by decide, by decide, by decide, by decide⟩
 example : (match setOption ((runSets demoG [⟨1, none, 1⟩]).getD default) 2 none 1 with | .done _ st m => (st, m) | .fault => (.ok, false))
     = (.esyntax, true) := by decide
+example : CfgEntry.Good demo ⟨3, s "-n", some (s "7")⟩ ∧ CfgEntry.Good demo ⟨0, s "-a", none⟩ :=
+  ⟨⟨⟨by decide, by decide⟩, by decide, by decide, ⟨⟨by decide, by decide⟩, by decide, by decide⟩⟩,
+   ⟨⟨by decide, by decide⟩, by decide, by decide, by decide⟩⟩
 /-- command-line forms on the demo table -/
 example : parseCmd demo 1 [s "-ab", s "-n9", s "--lown=5", s "--hin", s "-3", s "--", s "x"] false =
     [.set 0 none 2, .set 1 none 2, .set 3 (some (s "9")) 3, .set 4 (some (s "5")) 4, .set 5 (some (s "-3")) 6, .stop .ok false 7] := by decide
